@@ -71,6 +71,7 @@ def evaluate(h, meta, lines, tags, ans):
     allowed = {k: {None} for k in meta["keys"]}     # key -> set of allowed values (None = absent)
     attempted = {k: set() for k in meta["keys"]}     # values of FAILED sets of the key
     merge_after_del = {k: False for k in meta["keys"]}   # a merge ran after the key's last acknowledged delete
+    restarted_since = {k: False for k in meta["keys"]}   # ... and the store was restarted after that merge
     fault_seen = None
     fault_in_merge = False
     for li, tag in enumerate(tags):
@@ -102,8 +103,13 @@ def evaluate(h, meta, lines, tags, ans):
                 for k in meta["keys"]:
                     if allowed[k] == {None}:
                         merge_after_del[k] = True
+            if op[0] == "reopen":
+                for k in meta["keys"]:
+                    if merge_after_del[k]:
+                        restarted_since[k] = True
             if op[0] == "put":
                 merge_after_del[op[1]] = False
+                restarted_since[op[1]] = False
                 if a.startswith("err"):
                     attempted[op[1]].add(show_val(op[2]))      # only FAILED sets: their entry may sit in a file without counters
                     allowed[op[1]] = set(allowed[op[1]]) | {op[2]}
@@ -127,7 +133,7 @@ def evaluate(h, meta, lines, tags, ans):
         elif tag[0] == "read":
             k = tag[2]
             exp = {show_val(v) for v in allowed[k]}
-            if a not in exp and exp == {"nil"} and a in attempted[k] and merge_after_del[k] and tag[1] == "final":
+            if a not in exp and exp == {"nil"} and a in attempted[k] and merge_after_del[k] and (tag[1] == "final" or restarted_since[k]):
                 # D3 (known finding) in its fault flavour: the failed set's entry reached the old file when the writer was
                 # dropped; a later acknowledged delete wrote a tombstone; a merge dropped that tombstone while the file
                 # holding the entry (it has no counters, so it is never selected) survives: the key is back after restart
